@@ -49,3 +49,6 @@ func FSConfined(dir string) bool                    { panic("symbolic only") }
 func FSEntries(dir string) int                      { panic("symbolic only") }
 func FSCorrupt(dir string, how int)                 { panic("symbolic only") }
 func CrashDuring(f func()) bool                     { panic("symbolic only") }
+func CrashIterations() int                          { panic("symbolic only") }
+func FSDirN(i int) string                           { panic("symbolic only") }
+func CrashDuringK(i int, f func()) bool             { panic("symbolic only") }
